@@ -53,6 +53,7 @@ class Machine(object):
         self._k = None
         self.fwd_jumps = 0      # label / ♡ jumps to a later command (statistics for program generators)
         self.back_jumps = 0
+        self.returns = 0        # jumps taken through ♡
 
     def clone(self):
         m = Machine.__new__(Machine)
@@ -71,6 +72,7 @@ class Machine(object):
         m._k = None
         m.fwd_jumps = self.fwd_jumps
         m.back_jumps = self.back_jumps
+        m.returns = self.returns
         return m
 
     # ---- observation
@@ -178,6 +180,7 @@ class Machine(object):
         if tree == '♡':
             if self.latest is None:
                 return idx + 1
+            self.returns += 1
             if self.latest > idx:
                 self.fwd_jumps += 1
             else:
